@@ -18,6 +18,7 @@ import random
 import sys
 import time
 import warnings
+from concurrent.futures import ThreadPoolExecutor
 
 from vlib import trace
 from vlib.tlc import TlcError
@@ -594,9 +595,19 @@ def run(chk):
     runs = [(cfg, {}) for cfg in PARTS[chk.tier]]
     if not chk.quick():
         runs.append((SIM_CFG, {"simulate": SIM_TRACES, "depth": 70}))
-    for cfg, kw in runs:
+    def model_check(run):
+        cfg, kw = run
         # -simulate with ONE worker: the behaviours are then a function of the seed (R5)
-        r = chk.tlc("Context_MC", cfg, timeout=2400, workers=1 if kw else WORKERS, coverage=False, heap="8g", **kw)
+        return chk.tlc("Context_MC", cfg, timeout=2400, workers=1 if kw else (4 if chk.quick() else WORKERS),
+                       coverage=False, heap="2g" if chk.quick() else "8g", **kw)
+    if chk.quick():
+        # the quick parts are small (JVM start dominates): all TLC runs at once, four workers each
+        with ThreadPoolExecutor(max_workers=len(runs)) as ex:
+            results = list(ex.map(model_check, runs))
+    else:
+        results = None
+    for k, (cfg, kw) in enumerate(runs):
+        r = results[k] if results is not None else model_check((cfg, kw))
         for name in r.violated:
             chk.violation("C13.design." + name, "design:%s" % name,
                           "TLC: invariant %s violated in Context_MC (%s)" % (name, cfg))
